@@ -97,7 +97,8 @@ BIG_WAYS = [f'big:{MiB + 70000}:block', f'big:{MiB + 70000}:line', f'big:{MiB + 
 
 def norm(text, base):
     text = text.replace(base, '<BASE>')
-    return '\n'.join(canon.canon_exec(l) if re.match(r'^Exec\w*=', l) else l for l in text.split('\n'))
+    import trees
+    return trees.canon_members('\n'.join(canon.canon_exec(l) if re.match(r'^Exec\w*=', l) else l for l in text.split('\n')))
 
 
 def run(files):
@@ -113,6 +114,13 @@ def compare(ctx, sets, ways, label, parses=None):
     """sets: [{unit file name: text}] — every set is generated once as plain files and once respelled; any difference in the
     printed services, the exit status or the number of reported errors is an oracle failure"""
     res, rnd = ctx.res, ctx.rnd
+    if parses is None:
+        # only files the reader accepts are respelled: a file it rejects is rejected as a whole, while the same text in a drop-in
+        # fails the drop-in only (the unit is then converted without it) — the two spellings are not equivalent there
+        from core import hx
+        texts = sorted({t for units in sets for t in units.values()})
+        okay = {t for t, a in zip(texts, ctx.impl(['parse\t' + hx(t) for t in texts])) if a.startswith('ok')}
+        parses = lambda t: t in okay
     jobs = []
     for units in sets:
         plain, other, hows = {}, {}, {}
